@@ -220,3 +220,133 @@ func Snapshot(b []byte) []byte {
 	copy(c, b)
 	return c
 }
+
+// ---- logical threads (deterministic: exactly one runs at a time; the tape holds the schedule) ----
+
+type nthread struct {
+	resume chan struct{}
+	done   bool
+}
+
+var (
+	thr         []*nthread
+	curThread   int
+	switches    int
+	maxSwitches = 3
+	mainJoining bool
+)
+
+func ensureMain() {
+	if len(thr) == 0 {
+		thr = []*nthread{{resume: make(chan struct{}, 1)}}
+	}
+}
+
+// Go starts a logical thread running f. It first runs when the scheduler picks it.
+func Go(f func()) {
+	ensureMain()
+	t := &nthread{resume: make(chan struct{}, 1)}
+	id := len(thr)
+	thr = append(thr, t)
+	go func() {
+		<-t.resume
+		f()
+		t.done = true
+		threadDone(id)
+	}()
+}
+
+func runnable(exclude int) []int {
+	var r []int
+	for id, t := range thr {
+		if !t.done && id != exclude && !(id == 0 && mainJoining) {
+			r = append(r, id)
+		}
+	}
+	return r
+}
+
+func schedEntry(name string) int {
+	v, _ := strconv.ParseInt(next("sched", name).V, 10, 64)
+	return int(v)
+}
+
+func handoff(to int) {
+	me := thr[curThread]
+	curThread = to
+	thr[to].resume <- struct{}{}
+	<-me.resume
+}
+
+// SyncPoint is a preemption point (placed at the synchronisation operations of the environment model).
+func SyncPoint() {
+	if len(thr) <= 1 || switches >= maxSwitches {
+		return
+	}
+	if len(runnable(-1)) <= 1 {
+		return
+	}
+	to := schedEntry("switch")
+	if to != curThread {
+		switches++
+		handoff(to)
+	}
+}
+
+// Block: the current thread cannot proceed until another one has run.
+func Block(what string) {
+	if len(runnable(curThread)) == 0 {
+		Assert("deadlock: every thread is blocked ("+what+")", false)
+	}
+	handoff(schedEntry("blocked"))
+}
+
+func threadDone(id int) {
+	r := runnable(id)
+	if len(r) == 0 {
+		if mainJoining {
+			mainJoining = false
+			curThread = 0
+			thr[0].resume <- struct{}{}
+		}
+		return
+	}
+	to := schedEntry("done")
+	curThread = to
+	thr[to].resume <- struct{}{}
+}
+
+// Join makes the main thread wait for every spawned thread.
+func Join() {
+	ensureMain()
+	for {
+		alive := false
+		for _, t := range thr[1:] {
+			if !t.done {
+				alive = true
+			}
+		}
+		if !alive {
+			return
+		}
+		mainJoining = true
+		if len(runnable(0)) == 0 {
+			mainJoining = false
+			Assert("deadlock: spawned threads cannot finish", false)
+		}
+		handoff(schedEntry("join"))
+		mainJoining = false
+	}
+}
+
+func ThreadID() int { return curThread }
+
+// Acquire / Release tell the engine's happens-before tracker about a synchronisation object.
+func Acquire(obj any) {}
+func Release(obj any) {}
+
+// RaceCheck switches the engine's data-race detection on or off.
+func RaceCheck(on bool) {}
+
+// MaxSwitches bounds the number of preemptive context switches per path.
+func MaxSwitches(n int) { maxSwitches = n }
